@@ -223,6 +223,75 @@ func verifHarness_C09_converge() {
 	verifAssert(len(owners) == 1 && owners[0] == newest, "shard-ends-up-owned-by-the-instance-with-the-newest-claim")
 }
 
+// verifHarness_C09_reclaim: claims made one after the other (so "newest" is unambiguous: the last
+// one), including an instance claiming again while its earlier registration is still present, with
+// announcements delivered in any order between and after the claims.
+func verifHarness_C09_reclaim() {
+	verifConfig("preempt", 0)
+	nInst := verifParam("instances", 2)
+	nClaims := verifParam("claims", 3)
+	w := c9NewWorld(nInst)
+	for _, a := range w.insts {
+		for _, b := range w.insts {
+			if a != b {
+				w.merge(a, b)
+			}
+		}
+	}
+	shard := history.ClusterShardID{ClusterID: 2, ShardID: 1}
+	key := ClusterShardIDtoShortString(shard)
+	last := ""
+	seen := map[string]bool{}
+	deliverSome := func(all bool) {
+		for {
+			var pending []*c9Packet
+			for _, p := range w.net {
+				if p.copies == 0 {
+					pending = append(pending, p)
+				}
+			}
+			if len(pending) == 0 {
+				return
+			}
+			n := len(pending)
+			if !all {
+				n++ // or stop delivering for now
+			}
+			k := verifChoose("deliver", n)
+			if k == len(pending) {
+				return
+			}
+			verifAction("deliver")
+			w.deliver(pending[k])
+			verifQuiesce()
+		}
+	}
+	for c := 0; c < nClaims; c++ {
+		in := w.insts[verifChoose("claimer", nInst)]
+		if seen[in.name] {
+			verifReach("instance-claims-again")
+			verifAction("reclaim")
+		} else {
+			verifAction("claim")
+		}
+		seen[in.name] = true
+		last = in.name
+		in.sm.RegisterShard(shard)
+		verifQuiesce()
+		deliverSome(false)
+	}
+	deliverSome(true)
+	verifQuiesce()
+	verifReach("all-announcements-delivered")
+	var owners []string
+	for _, in := range w.insts {
+		if _, ok := in.sm.GetLocalShards()[key]; ok {
+			owners = append(owners, in.name)
+		}
+	}
+	verifAssert(len(owners) == 1 && owners[0] == last, "shard-ends-up-owned-by-the-instance-with-the-newest-claim")
+}
+
 // verifHarness_C09_leave: an instance that left owns nothing in anyone's view, whatever the
 // order of its last full-state merge and the leave event.
 func verifHarness_C09_leave() {
